@@ -410,11 +410,25 @@ def build_cog(census):
         _fam(mod, [q[len("exactpack.solvers."):] for q in quals], pool)
 
 
-def family_of(qual):
+def family_of(qual, cls=None):
     short = qual[len("exactpack.solvers."):] if qual.startswith("exactpack.solvers.") else qual
     for f in FAMILIES.values():
         if short in f.classes:
             return f
+    # a class the family lists do not name (added after they were written): the family of its nearest listed base class
+    if cls is None:
+        try:
+            from . import world
+            cls = world.CENSUS.get(qual)
+        except Exception:
+            cls = None
+    if cls is not None:
+        for base in cls.__mro__[1:]:
+            bq = base.__module__ + "." + base.__name__
+            bshort = bq[len("exactpack.solvers."):] if bq.startswith("exactpack.solvers.") else bq
+            for f in FAMILIES.values():
+                if bshort in f.classes:
+                    return f
     return None
 
 
